@@ -182,6 +182,7 @@ func (c *child) fullSync(g int, startPointDone bool) {
 		}
 	}
 	c.shm.Store(prf.SlotInDel, 1)
+	c.shm.Add(prf.SlotDelSeq, 1)
 	c.trigger()
 	if err := c.ch.DelRunId(c.ch.RunId()); err != nil {
 		fail("DelRunId: %v", err)
